@@ -298,12 +298,14 @@ def optimize_kl(likelihood_energy,
                     pass
     # /Sanity check of input
 
-    if output_directory is not None:
-        global _output_directory
-        global _save_strategy
-        _output_directory = output_directory
-        _save_strategy = save_strategy
+    # Always (re)set the module-level settings: a previous call with an output
+    # directory must not make a later call without one write files
+    global _output_directory
+    global _save_strategy
+    _output_directory = output_directory
+    _save_strategy = save_strategy
 
+    if output_directory is not None:
         # Create all necessary subfolders
         if _MPI_master(comm(initial_index)):
             makedirs(output_directory, exist_ok=True)
